@@ -138,7 +138,7 @@ func before(a, b ssa.Instruction) bool {
 func init() {
 	register(&Rule{
 		Name:  "CRC-SEED",
-		Floor: 2,
+		Floor: 1,
 		Doc:   "at every persistFooter(f, w) call the crc field of f was assigned, on the dominating path, the running CRC (Sum32/crc of a countHashWriter) of the very countHashWriter through which every data byte of that output was written in the calling function; a CRC parsed from a file footer or carried in a shared footer never seeds it; the footer writer is the same writer or a buffered wrapper flushed afterwards on the same destination (data is never left in a buffer while the footer bypasses it)",
 		Run: func(c *Ctx, scope string, r *Report) {
 			pf := c.MustFn("persistFooter")
@@ -266,6 +266,17 @@ func init() {
 			key := "persistFooter/writes"
 			var cw *ssa.Call
 			var writes []*ssa.Call
+			writerOf := map[*ssa.Call]ssa.Value{}
+			dataOf := map[*ssa.Call][]ssa.Value{}
+			footerParam := paramOfType(fn, "*"+rootPkgPath+".footer")
+			writerParam := paramOfType(fn, "io.Writer")
+			if footerParam == nil || writerParam == nil {
+				if len(fn.Params) < 2 {
+					r.undecided(key, fnName(fn), c.pos(fn.Pos()), "persistFooter no longer takes a footer and a writer")
+					return
+				}
+				footerParam, writerParam = fn.Params[0], fn.Params[1]
+			}
 			for _, b := range fn.Blocks {
 				for _, ins := range b.Instrs {
 					call, ok := ins.(*ssa.Call)
@@ -278,9 +289,36 @@ func init() {
 					}
 					if fnName(sc) == "newCountHashWriter" {
 						cw = call
+						continue
 					}
 					if funcFullName(sc) == "encoding/binary.Write" {
 						writes = append(writes, call)
+						writerOf[call] = call.Call.Args[0]
+						dataOf[call] = []ssa.Value{call.Call.Args[2]}
+						continue
+					}
+					// an in-package helper that is handed a writer and the values to write
+					if c.inRoot(sc) && sc.Blocks != nil {
+						var w ssa.Value
+						var data []ssa.Value
+						for ai, a := range call.Call.Args {
+							if isWriterLike(a.Type()) && w == nil {
+								w = a
+								continue
+							}
+							if sc.Signature.Variadic() && ai == len(call.Call.Args)-1 {
+								if vs := varargValues(a); len(vs) > 0 {
+									data = append(data, vs...)
+									continue
+								}
+							}
+							data = append(data, a)
+						}
+						if w != nil && len(data) > 0 {
+							writes = append(writes, call)
+							writerOf[call] = w
+							dataOf[call] = data
+						}
 					}
 				}
 			}
@@ -288,14 +326,14 @@ func init() {
 				r.undecided(key, fnName(fn), c.pos(fn.Pos()), "persistFooter no longer writes its fields with binary.Write through a countHashWriter: the rule's model is out of date")
 				return
 			}
-			if cw.Call.Args[0] != ssa.Value(fn.Params[1]) {
+			if cw.Call.Args[0] != ssa.Value(writerParam) {
 				r.bad(key, fnName(fn), c.pos(cw.Pos()), "the hashing writer does not wrap the writer parameter")
 				return
 			}
 			// seeded: store cw.crc = load footer.crc, before the first write
 			seeded := false
 			for _, st := range storesToFieldOf(fn, cw, "crc") {
-				if ld, ok := st.Val.(*ssa.UnOp); ok && ld.Op == token.MUL && strings.HasSuffix(accessPath(ld.X), ".crc") && rootParam(ld.X) == ssa.Value(fn.Params[0]) && before(st, writes[0]) {
+				if ld, ok := st.Val.(*ssa.UnOp); ok && ld.Op == token.MUL && strings.HasSuffix(accessPath(ld.X), ".crc") && rootParam(ld.X) == ssa.Value(footerParam) && before(st, writes[0]) {
 					seeded = true
 				}
 			}
@@ -304,7 +342,7 @@ func init() {
 				return
 			}
 			for _, w := range writes {
-				_, ctors, _ := writerChain(w.Call.Args[0])
+				_, ctors, _ := writerChain(writerOf[w])
 				if len(ctors) == 0 || ctors[0] != ssa.Value(cw) {
 					r.bad(key, fnName(fn), c.pos(w.Pos()), "a footer field is written bypassing the hashing writer")
 					return
@@ -330,7 +368,11 @@ func init() {
 				r.undecided(key, fnName(fn), c.pos(fn.Pos()), fmt.Sprintf("%d footer writes can be the final one: the writes are not ordered with a single last write", nLast))
 				return
 			}
-			data := last.Call.Args[2]
+			if len(dataOf[last]) != 1 {
+				r.bad(key, fnName(fn), c.pos(last.Pos()), fmt.Sprintf("the last footer write carries %d values: the CRC has to be written by itself, after every other field went through the hashing writer (an operand evaluated together with the fields is read too early)", len(dataOf[last])))
+				return
+			}
+			data := dataOf[last][0]
 			if mi, ok := data.(*ssa.MakeInterface); ok {
 				data = mi.X
 			}
@@ -340,7 +382,7 @@ func init() {
 			}
 			// no store to the footer parameter (persisting must not modify the footer it is given)
 			for _, w := range c.writeSitesIn(fn) {
-				if w.base != nil && rootParam(w.base) == ssa.Value(fn.Params[0]) {
+				if w.base != nil && rootParam(w.base) == ssa.Value(footerParam) {
 					r.bad(key, fnName(fn), c.pos(w.ins.Pos()), "persistFooter writes into the footer it was given ("+w.desc+")")
 					return
 				}
@@ -484,7 +526,7 @@ func init() {
 
 	register(&Rule{
 		Name:  "LEN-RETURN",
-		Floor: 3,
+		Floor: 2,
 		Doc:   "Segment.WriteTo returns the byte count reported by Data.WriteTo plus footerLen on success; mergeSegmentBasesWriter returns Count() of the countHashWriter that also carried the footer; Merger.WriteTo returns that count",
 		Run: func(c *Ctx, scope string, r *Report) {
 			footerLen, _ := constIntOf(c.ConstVal("footerLen"))
